@@ -12,28 +12,31 @@
 (* (lintFile: read the path; error if it cannot be read; nothing to do if it *)
 (* is already formatted; otherwise rewrite).  At most MaxCrash runs crash;   *)
 (* the one after that is the "later successful run" of the statement.        *)
+(* The message file is a regular file, a symbolic link to a file in the same *)
+(* directory, or a symbolic link to a file elsewhere (Kinds).                *)
 EXTENDS FsModel
 
 CONSTANTS Impl, MaxCrash
 
-Path == "f"
-Bak  == "f.langlint-bak"
+Path == "d/f"
+Bak  == "d/f.langlint-bak"
+Kinds == {"file", "link-same-dir", "link-elsewhere"}
+Target(k) == IF k = "link-same-dir" THEN "d/shared" ELSE "e/shared"
 Orig == "ORIGINAL"
 NewA == "FORM"
 NewB == "ATTED"
 New  == NewA \o NewB
-Keep == {Path}
 
-VARIABLES dir, fds, phase, ip, run, crashes, tmp
+VARIABLES dir, fds, phase, ip, run, crashes, tmp, kind
 
-vars == <<dir, fds, phase, ip, run, crashes, tmp>>
+vars == <<dir, fds, phase, ip, run, crashes, tmp, kind>>
 
 (* random temp names: a new one for every run *)
-TmpName(r) == IF Impl = "asis" THEN "f.langlint-" \o ToString(r) ELSE "f.langlint-tmp"
+TmpName(r) == IF Impl = "asis" THEN "d/f.langlint-" \o ToString(r) ELSE "d/f.langlint-tmp"
 
 Prog(t) ==
   IF Impl = "asis"
-  THEN << [ev |-> "open", name |-> t, fd |-> 3, creat |-> TRUE, excl |-> TRUE, trunc |-> FALSE],
+  THEN << [ev |-> "open", name |-> t, fd |-> 3, creat |-> TRUE, excl |-> TRUE, trunc |-> FALSE, nofollow |-> FALSE],
           [ev |-> "write", fd |-> 3, data |-> NewA],
           [ev |-> "write", fd |-> 3, data |-> NewB],
           [ev |-> "close", fd |-> 3],
@@ -41,7 +44,7 @@ Prog(t) ==
           [ev |-> "rename", from |-> Path, to |-> Bak],
           [ev |-> "rename", from |-> t, to |-> Path],
           [ev |-> "unlink", name |-> Bak] >>
-  ELSE << [ev |-> "open", name |-> t, fd |-> 3, creat |-> TRUE, excl |-> FALSE, trunc |-> TRUE],
+  ELSE << [ev |-> "open", name |-> t, fd |-> 3, creat |-> TRUE, excl |-> FALSE, trunc |-> TRUE, nofollow |-> FALSE],
           [ev |-> "write", fd |-> 3, data |-> NewA],
           [ev |-> "write", fd |-> 3, data |-> NewB],
           [ev |-> "close", fd |-> 3],
@@ -49,17 +52,21 @@ Prog(t) ==
           [ev |-> "rename", from |-> t, to |-> Path] >>
 
 (* phase: "start" | "run" (ip = index of the next operation) | "done" | "failed" | "crashed" *)
-Init == /\ dir = [x \in {Path} |-> Orig] /\ fds = [x \in {} |-> ""]
+InitDir(k) == IF k = "file" THEN [x \in {Path} |-> File(Orig)]
+              ELSE [x \in {Path, Target(k)} |-> IF x = Path THEN Link(Target(k)) ELSE File(Orig)]
+Keep == DOMAIN InitDir(kind)
+
+Init == /\ kind \in Kinds /\ dir = InitDir(kind) /\ fds = [x \in {} |-> ""]
         /\ phase = "start" /\ ip = 0 /\ run = 1 /\ crashes = 0 /\ tmp = TmpName(1)
 
 (* lintFile: ReadFile(path), Format, compare *)
 Start == /\ phase = "start"
-         /\ phase' = IF ~Has(dir, Path) THEN "failed"                 \* ReadFile error
-                     ELSE IF dir[Path] = New THEN "done"              \* already formatted: no rewrite
-                     ELSE IF dir[Path] = Orig THEN "run"              \* rewriteFile
+         /\ phase' = IF ~Readable(dir, Path) THEN "failed"            \* ReadFile error
+                     ELSE IF Read(dir, Path) = New THEN "done"        \* already formatted: no rewrite
+                     ELSE IF Read(dir, Path) = Orig THEN "run"        \* rewriteFile
                      ELSE "failed"                                    \* damaged content: not a successful run of interest
          /\ ip' = 1
-         /\ UNCHANGED <<dir, fds, run, crashes, tmp>>
+         /\ UNCHANGED <<dir, fds, run, crashes, tmp, kind>>
 
 Step == /\ phase = "run"
         /\ LET e == Prog(tmp)[ip] IN
@@ -67,18 +74,18 @@ Step == /\ phase = "run"
              /\ fds' = ApplyFds(dir, fds, e)
         /\ IF ip = Len(Prog(tmp)) THEN phase' = "done" /\ ip' = 0
                                   ELSE phase' = "run" /\ ip' = ip + 1
-        /\ UNCHANGED <<run, crashes, tmp>>
+        /\ UNCHANGED <<run, crashes, tmp, kind>>
 
 (* the process stops: before its first operation, between any two, or after the last *)
 Crash == /\ phase \in {"start", "run"}
          /\ crashes < MaxCrash
          /\ phase' = "crashed" /\ ip' = 0 /\ crashes' = crashes + 1
          /\ fds' = [x \in {} |-> ""]
-         /\ UNCHANGED <<dir, run, tmp>>
+         /\ UNCHANGED <<dir, run, tmp, kind>>
 
 Restart == /\ phase = "crashed"
            /\ phase' = "start" /\ run' = run + 1 /\ tmp' = TmpName(run + 1)
-           /\ UNCHANGED <<dir, fds, crashes, ip>>
+           /\ UNCHANGED <<dir, fds, crashes, ip, kind>>
 
 Next == Start \/ Step \/ Crash \/ Restart
 Spec == Init /\ [][Next]_vars
@@ -86,7 +93,9 @@ Spec == Init /\ [][Next]_vars
 (* ---- C36 ---- *)
 CrashSafe == (phase = "crashed") => CrashSafeDir(dir, Path, Orig, New)
 Clean     == (phase = "done") => CleanDir(dir, Keep)
-Result    == (phase = "done") => dir[Path] = New
+Result    == (phase = "done") => (Readable(dir, Path) /\ Read(dir, Path) = New)
+(* the content clause still holds once a later run has happened (whatever its outcome) *)
+ContentAfterRun == (phase \in {"done", "failed"}) => CrashSafeDir(dir, Path, Orig, New)
 (* a run that follows a crash-safe crash is never refused *)
 Recovers  == (phase = "failed") => FALSE
 =============================================================================
